@@ -543,7 +543,18 @@ func (e *Engine) libCall(st *State, fr *Frame, name string, args []Val, c *ssa.C
 			}
 			st.assumeT(Implies(ascii, same))
 		} else {
-			e.warn("strings.ToLower on a string of unknown length: result unconstrained")
+			// unknown length: an all-ASCII string keeps its length (one named quantified fact over its bytes); the
+			// contents of the result stay unconstrained
+			arr := s.Arr
+			if arr == nil {
+				arr = st.arrOf(s.Base)
+			}
+			zero := BVu(0, 64)
+			k := BoundVar(fresh("k"), 64)
+			body := Implies(And(SLe(zero, k), SLt(k, s.Len)), ULt(Select(arr, Add(s.Off, k), 8), BVu(0x80, 8)))
+			qf := &Term{Leaf: fresh("qf"), W: 0, QDef: Forall(k, body)}
+			registerQFacts(qf, k, body, []traceRead{{s.Base.String(), Add(s.Off, k)}})
+			st.assumeT(Implies(qf, Eq(out.Len, s.Len)))
 		}
 		return one(out)
 	case "(encoding/binary.littleEndian).Uint16", "(encoding/binary.littleEndian).Uint32", "(encoding/binary.littleEndian).Uint64",
